@@ -342,7 +342,21 @@ fn wildcard_worlds() -> Vec<(RefMap, Tags)> {
     worlds
 }
 
+/// the evaluator must terminate on every ref world: run it on its own thread and give up after
+/// 10 s (the stuck thread is abandoned; the process exits normally at the end of the check)
 fn check_wildcard(world: usize, target: &str) -> Verdict {
+    let (tx, rx) = std::sync::mpsc::channel();
+    let t = target.to_string();
+    std::thread::spawn(move || {
+        let _ = tx.send(check_wildcard_inner(world, &t));
+    });
+    match rx.recv_timeout(std::time::Duration::from_secs(10)) {
+        Ok(v) => v,
+        Err(_) => Err(("wildcard-does-not-terminate".into(), format!("a *== @{target} in ref world {world} did not return within 10 s"))),
+    }
+}
+
+fn check_wildcard_inner(world: usize, target: &str) -> Verdict {
     let (refs, subject) = &wildcard_worlds()[world];
     let f = F::Wild(vec!["a".into()], target.into(), None);
     let want = eval(&f, subject, refs).unwrap();
